@@ -526,3 +526,96 @@ func VerifH_proxy() {
 		vfCover("returns-without-reading-all")
 	}
 }
+
+func init() {
+	vfHarnesses["VerifH_proxy_intercept"] = VerifH_proxy_intercept
+}
+
+// VerifH_proxy_intercept (C18): calls to a PROXIED backend (RegisterConn) pass through the configured
+// unary / stream interceptor exactly once with the full method name and the method's streaming
+// flags, the stats handler sees one begin and one end carrying the call's error, and the
+// client-visible outcome is the same with the options on and off.
+func VerifH_proxy_intercept() {
+	defer vfCloseBackends()
+	vfPreemptions(1)
+	shape := vfChoice(4)
+	name := []string{"U", "CS", "SS", "BD"}[shape]
+	cs := shape == 1 || shape == 3
+	ss := shape == 2 || shape == 3
+	sc := &vfBackendScript{replies: [][]byte{vfProtoStr(1, "r0")}}
+	fail := vfBool()
+	if fail {
+		sc.final = status.Error(codes.NotFound, "be")
+		sc.replies = nil
+		sc.failAt = 2
+	}
+	obs := &vfBackendObs{}
+	withOpts := vfBool()
+	var ucalls, scalls int
+	var umethod, smethod string
+	var sClient, sServer bool
+	st := &fakeStats{}
+	opts := []MuxOption{CodecOption("application/dual", vfDualCodec{})}
+	if withOpts {
+		opts = append(opts, StatsOption(st),
+			UnaryServerInterceptorOption(func(ctx context.Context, req interface{}, info *grpc.UnaryServerInfo, handler grpc.UnaryHandler) (interface{}, error) {
+				ucalls++
+				umethod = info.FullMethod
+				return handler(ctx, req)
+			}),
+			StreamServerInterceptorOption(func(srv interface{}, stream grpc.ServerStream, info *grpc.StreamServerInfo, handler grpc.StreamHandler) error {
+				scalls++
+				smethod = info.FullMethod
+				sClient, sServer = info.IsClientStream, info.IsServerStream
+				return handler(srv, stream)
+			}))
+	}
+	cc := vfBackendConn([]vfSvcSpec{vfSvcP})
+	vfProxyTable[cc] = &vfProxyBackend{script: sc, obs: obs}
+	mux, err := NewMux(opts...)
+	if err != nil {
+		vfFail("NewMux failed")
+	}
+	if err := mux.RegisterConn(context.Background(), cc); err != nil {
+		vfFail("RegisterConn failed: " + err.Error())
+	}
+	p := vfProtoStr(1, "q0")
+	body := append([]byte{0, 0, 0, 0, byte(len(p))}, p...)
+	hb := &vfHoldBody{data: body, closed: make(chan struct{})}
+	r := &http.Request{Method: "POST", URL: &url.URL{Path: "/vf.P/" + name},
+		Header: http.Header{"Content-Type": []string{"application/grpc+dual"}, "Te": []string{"trailers"}},
+		Body:   hb, ContentLength: -1, ProtoMajor: 2}
+	w := newFakeRW()
+	vfWatchdog(func() {
+		mux.ServeHTTP(w, r)
+		hb.Close()
+	})
+	w.finish()
+	gs, _ := w.trailer("Grpc-Status")
+	wantCode := "0"
+	if fail {
+		wantCode = "5"
+	}
+	vfCheck(len(gs) == 1 && gs[0] == wantCode, "the outcome of a proxied call depends on the interceptor / stats options")
+	vfCheck(obs.calls == 1, "the backend was not called exactly once")
+	if !withOpts {
+		vfCover("options-off")
+		return
+	}
+	if !cs && !ss {
+		vfCheck(ucalls == 1 && scalls == 0 && umethod == "/vf.P/"+name, "a proxied unary call did not pass through the unary interceptor exactly once with its full method name")
+		vfCover("unary-interceptor")
+	} else {
+		vfCheck(scalls == 1 && ucalls == 0 && smethod == "/vf.P/"+name, "a proxied streaming call did not pass through the stream interceptor exactly once with its full method name")
+		vfCheck(sClient == cs && sServer == ss, "the stream interceptor of a proxied call saw wrong streaming flags")
+		vfCover("stream-interceptor")
+	}
+	n := len(st.events)
+	vfCheck(n >= 3 && st.events[0] == "tag" && st.events[n-1] == "end" && st.ends == 1, "stats events of a proxied call do not start with tag and end with exactly one end")
+	if fail {
+		vfCheck(st.endErr != nil && status.Code(st.endErr) == codes.NotFound, "the End stats event of a failing proxied call does not carry the backend's error")
+		vfCover("failing")
+	} else {
+		vfCheck(st.endErr == nil, "the End stats event of a succeeding proxied call carries an error")
+	}
+}
